@@ -167,6 +167,22 @@ def templates(rng):
     # self reference
     SR = _dc(m, "Node", {"v": int, "next": Optional["Node"]}, {"next": None})
     out.append(("self-referencing dataclass", SR, [SR(1, SR(2))], {"self-reference"}))
+    # generic classes that refer to themselves, through specialised aliases
+    Tg = typing.TypeVar("Tg")
+    CH = types.new_class("Chain", (DataClassDictMixin, typing.Generic[Tg]), {}, lambda ns: ns.update({"__annotations__": {"v": Tg, "nxt": Optional["Chain[Tg]"]}, "nxt": None, "__module__": m.__name__, "Tg": Tg}))
+    m.Chain = CH
+    m.Tg = Tg
+    CH = dataclasses.dataclass(CH)
+    out.append(("generic self-referencing dataclass Chain[int]", CH[int], [CH(1, CH(2))], {"self-reference", "generic"}))
+    TR = types.new_class("GTree", (DataClassDictMixin, typing.Generic[Tg]), {}, lambda ns: ns.update({"__annotations__": {"v": Tg, "kids": List["GTree[Tg]"]}, "kids": dataclasses.field(default_factory=list), "__module__": m.__name__}))
+    m.GTree = TR
+    TR = dataclasses.dataclass(TR)
+    HG = _dc(m, "HoldsTree", {"t": TR[str], "c": Optional[CH[int]]}, {"c": None})
+    out.append(("holder of generic self-referencing classes", HG, [HG(TR("a", [TR("b")]), CH(1))], {"self-reference", "generic"}))
+    # mutual recursion
+    MA = _dc(m, "MutA", {"b": Optional["MutB"]}, {"b": None})
+    MB = _dc(m, "MutB", {"a": Optional[MA], "n": Optional[SR]}, {"a": None, "n": None})
+    out.append(("mutually recursive dataclasses", MA, [MA(MB(MA(), SR(1)))], {"self-reference"}))
     import re
 
     PT = _dc(m, "Pat", {"p": re.Pattern})
